@@ -76,7 +76,9 @@ class TaskHandler:
         """Await completion of all pending tasks."""
         self._open = False
         if len(self._pending) > 0:
-            for key in dict(self._pending).keys():
-                get = self._pending.get(key)
-                if get is not None:
-                    self._pending[key].result(10)
+            for future in list(self._pending.values()):
+                try:
+                    # wait for the task to finish; a failure of the task itself is reported by its done callback
+                    future.exception(10)
+                except Exception:
+                    logging.exception("Failed waiting for task to complete %s", future)
